@@ -285,6 +285,9 @@ func cliTraffic(rng *rand.Rand, nOps int, faults bool) *cliScenario {
 		if rng.Intn(5) == 0 {
 			continue // never answered
 		}
+		if rng.Intn(5) == 0 { // server request colliding with an outstanding id, before the real reply
+			ops = append(ops, cliOp{Kind: "reply", Arg: group[rng.Intn(len(group))], Arg2: []string{"push", "pushbad"}[rng.Intn(2)]})
+		}
 		ops = append(ops, cliOp{Kind: "reply", Arg: strings.Join(group, ","), Arg2: mod})
 		if rng.Intn(3) == 0 {
 			junk := []string{`{"jsonrpc":"2.0","id":9999,"result":"unknown"}`, `[{"jsonrpc":"2.0","id":"zz","result":1},5]`, `{"jsonrpc":"2.0","method":"srvnote","params":[1]}`,
